@@ -1,5 +1,305 @@
 package rpc
 
-import "verif/core"
+import (
+	"encoding/json"
+	"fmt"
+	"path/filepath"
+	"strings"
+	"time"
 
-func runC39(c *core.Ctx) error { return nil }
+	"verif/core"
+)
+
+const (
+	miB          = 1 << 20
+	maxPacketLen = 16*miB - 1 // ServerWithRequestMemoryLimit clamps to at least this
+)
+
+type burstCfg struct {
+	name    string
+	env     envCfg
+	conns   int
+	calls   int   // per connection
+	sizes   []int // request body sizes (cycled)
+	cap     int   // number of handlers that can be admitted at once (what the model says)
+	memSpec int   // MemLimit of the trace specification (bytes)
+	bufSpec int   // BufSize of the trace specification (bytes)
+	mcSlots int   // MemLimit of the MC_RpcCalls run that establishes the invariants (units)
+}
+
+type burstResp struct {
+	Error      string   `json:"error"`
+	Panic      string   `json:"panic"`
+	Calls      int      `json:"calls"`
+	Peak       int      `json:"peak"`
+	Limit      int64    `json:"limit"`
+	MaxWorkers int      `json:"maxWorkers"`
+	Piled      bool     `json:"piled"`
+	Events     int      `json:"events"`
+	Hung       []int    `json:"hung"`
+	RpcLog     []string `json:"rpclog"`
+}
+
+func runBurst(c *core.Ctx, drvPath string, b burstCfg, seed int64, tag string) ([]event, burstResp, string, error) {
+	var resp burstResp
+	d, err := startDriver(drvPath, 5*time.Minute)
+	if err != nil {
+		return nil, resp, "", err
+	}
+	defer d.p.Close()
+	env := b.env
+	if env.Net == "unix" {
+		env.Dir = sockDir(c)
+	}
+	out := filepath.Join(c.Scratch, "burst-"+tag+".ndjson")
+	err = d.p.Call(map[string]any{"op": "burst", "env": env, "seed": seed, "out": out, "watchdogMs": 30000,
+		"burst": map[string]any{"conns": b.conns, "calls": b.calls, "sizes": b.sizes, "cap": b.cap}}, &resp)
+	if err != nil {
+		return nil, resp, "", err
+	}
+	if resp.Error != "" || resp.Panic != "" {
+		return nil, resp, "", fmt.Errorf("driver burst: %s%s", resp.Error, resp.Panic)
+	}
+	lines, err := readLines(out)
+	if err != nil {
+		return nil, resp, "", err
+	}
+	evs, err := parseEvents(lines)
+	_, race := d.raceReport()
+	return evs, resp, race, err
+}
+
+func (b burstCfg) consts() map[string]string {
+	return map[string]string{"WORKERS": fmt.Sprint(b.env.MaxWorkers), "MEMLIMIT": fmt.Sprint(b.memSpec),
+		"BUFSIZE": fmt.Sprint(b.bufSpec), "CONNS": fmt.Sprint(b.conns)}
+}
+
+func runC39(c *core.Ctx) error {
+	var drvPath string
+	var buildErr error
+	buildDone := make(chan struct{})
+	go func() { drvPath, buildErr = buildDriver(c); close(buildDone) }()
+
+	const defLimit = 256 * miB // DefaultRequestMemoryLimit
+	const defBuf = 4096        // DefaultServerRequestBufSize
+	small := []int{100, 2000, 50000, 16, 300000}
+	n := c.Pick(5, 12)
+	bursts := []burstCfg{
+		{name: "workers-1", env: envCfg{Net: "tcp4", MaxWorkers: 1}, conns: 3, calls: n, sizes: small, cap: 1, memSpec: defLimit, bufSpec: defBuf, mcSlots: 3},
+		{name: "workers-2", env: envCfg{Net: "unix", Key: cryptoKey, MaxWorkers: 2}, conns: 3, calls: n, sizes: small, cap: 2, memSpec: defLimit, bufSpec: defBuf, mcSlots: 3},
+		{name: "workers-3", env: envCfg{Net: "tcp4", Key: cryptoKey, MaxWorkers: 3}, conns: 4, calls: n, sizes: small, cap: 3, memSpec: defLimit, bufSpec: defBuf, mcSlots: 3},
+		// request memory: the limit clamps to 16 MiB - 1; with RequestBufSize = 6 MiB every request takes 6 MiB: 2 slots for 8 workers
+		{name: "memory-6MiB-slots-2", env: envCfg{Net: "tcp4", MaxWorkers: 8, BufSize: 6 * miB, MemLimit: 1}, conns: 4, calls: c.Pick(3, 6), sizes: small, cap: 2,
+			memSpec: maxPacketLen, bufSpec: 6 * miB, mcSlots: 2},
+		// RequestBufSize = 4 MiB: 3 slots (4 x 4 MiB would exceed 16 MiB - 1); one request in five is 5 MiB and takes its own length
+		{name: "memory-4MiB-mixed", env: envCfg{Net: "unix", MaxWorkers: 8, BufSize: 4 * miB, MemLimit: 1}, conns: 4, calls: c.Pick(3, 6), sizes: []int{100, 2000, 5 * miB, 16, 70000}, cap: 2,
+			memSpec: maxPacketLen, bufSpec: 4 * miB, mcSlots: 3},
+	}
+	if c.Thorough() {
+		bursts = append(bursts,
+			burstCfg{name: "workers-0-inline", env: envCfg{Net: "tcp4", MaxWorkers: 0}, conns: 3, calls: n, sizes: small, cap: 3, memSpec: defLimit, bufSpec: defBuf, mcSlots: 3},
+			burstCfg{name: "memory-20MiB-slots-3", env: envCfg{Net: "tcp4", Key: cryptoKey, MaxWorkers: 8, BufSize: 6 * miB, MemLimit: 20 * miB}, conns: 5, calls: 5, sizes: small, cap: 3,
+				memSpec: 20 * miB, bufSpec: 6 * miB, mcSlots: 3},
+			burstCfg{name: "workers-2-memory-slots-2", env: envCfg{Net: "unix", Key: cryptoKey, MaxWorkers: 2, BufSize: 7 * miB, MemLimit: 1}, conns: 4, calls: 5, sizes: small, cap: 2,
+				memSpec: maxPacketLen, bufSpec: 7 * miB, mcSlots: 2},
+		)
+	}
+
+	// 1. TLC: the invariants WorkerBound / MemBound / WaitingNotDropped of RpcCalls for every
+	// (MaxWorkers, memory slots) pair used below; the model is small (3 calls, no faults)
+	type pair struct{ w, m int }
+	seen := map[pair]bool{}
+	var jobs []func() error
+	for _, b := range bursts {
+		p := pair{b.env.MaxWorkers, b.mcSlots}
+		if p.w > 3 {
+			p.w = 3
+		}
+		if seen[p] {
+			continue
+		}
+		seen[p] = true
+		jobs = append(jobs, func() error {
+			m := mcCfg{name: fmt.Sprintf("limits-w%d-m%d", p.w, p.m), calls: []int{1, 2, 3}, nc1: 2, workers: p.w, memLimit: p.m, outs: []string{"ok"}, orphans: true}
+			r, err := c.MustTLC(core.TLCOpts{Module: "MC_RpcCalls", Cfg: "MC_RpcCalls.cfg", Consts: m.consts(false), Workers: 2, Timeout: 8 * time.Minute})
+			if err != nil {
+				return fmt.Errorf("MC_RpcCalls/%s: %v", m.name, err)
+			}
+			c.Add("states", r.Distinct)
+			c.Add("transitions", r.Generated)
+			c.Set("mc_"+m.name+"_states", r.Distinct)
+			return nil
+		})
+	}
+	// one configuration with a close, so that waiting requests of a stopped connection are covered
+	jobs = append(jobs, func() error {
+		m := mcCfg{name: "limits-close", calls: []int{1, 2}, nc1: 1, workers: 1, memLimit: 1, closes: 1, outs: []string{"ok", "cancelled"}, orphans: true}
+		r, err := c.MustTLC(core.TLCOpts{Module: "MC_RpcCalls", Cfg: "MC_RpcCalls.cfg", Consts: m.consts(false), Workers: 3, Coverage: true, Timeout: 8 * time.Minute})
+		if err != nil {
+			return fmt.Errorf("MC_RpcCalls/%s: %v", m.name, err)
+		}
+		c.Add("states", r.Distinct)
+		c.Add("transitions", r.Generated)
+		c.Set("mc_"+m.name+"_states", r.Distinct)
+		cov := map[string]int{}
+		for _, a := range []string{"IAcquireMem", "IGetWorker", "VHandlerEnter", "VHandlerExit", "ISendResponse", "IRecvHdr", "IRecvAbort"} {
+			cov[a[1:]] = r.ActionCover[a]
+			if r.ActionCover[a] == 0 {
+				return fmt.Errorf("vacuous: action %s never taken in MC_RpcCalls/%s", a[1:], m.name)
+			}
+		}
+		c.Set("model_action_coverage_states_generated", cov)
+		return nil
+	})
+	if err := parallel(4, jobs); err != nil {
+		return err
+	}
+	<-buildDone
+	if buildErr != nil {
+		return buildErr
+	}
+
+	// 2. bursts against the real server, validated by TLC against the projection TraceRpcLimits
+	peaks := map[string]any{}
+	var firstTrace []event
+	var firstCfg burstCfg
+	for bi, b := range bursts {
+		seed := c.Seed*100 + int64(bi)
+		judge := func(tag string) (key, what string, evs []event, resp burstResp, err error) {
+			evs, resp, race, err := runBurst(c, drvPath, b, seed, tag)
+			if err != nil {
+				return "", "", nil, resp, err
+			}
+			if race != "" {
+				return "", "", nil, resp, fmt.Errorf("race detector report during a burst (C38 decides about races):\n%s", race)
+			}
+			if len(resp.Hung) > 0 {
+				return "burst/" + b.name + "/hung", fmt.Sprintf("requests %v of the burst were never answered (watchdog 30 s); rpc log %v", resp.Hung, resp.RpcLog), evs, resp, nil
+			}
+			v, err := validateTraceBFS(c, "TraceRpcLimits", "TraceRpcLimits.cfg", b.consts(), toNDJSON(evs))
+			if err != nil {
+				return "", "", nil, resp, err
+			}
+			c.Add("states", v.States)
+			c.Add("transitions", v.Gen)
+			if !v.OK {
+				bad := "(invariant of the projection)"
+				if v.InvError == "" && v.Matched < len(evs) {
+					jb, _ := json.Marshal(evs[v.Matched])
+					bad = string(jb)
+				}
+				cls := "invariant"
+				if v.InvError == "" && v.Matched < len(evs) {
+					cls = evs[v.Matched].str("ev")
+				}
+				return "burst/" + b.name + "/" + cls, fmt.Sprintf("burst %s (MaxWorkers=%d, RequestBufSize=%d, limit=%d): recorded history is not a behaviour of the limits projection of RpcCalls; first unexplained event: %s %s; rpc log: %v",
+					b.name, b.env.MaxWorkers, b.bufSpec, b.memSpec, bad, v.InvError, resp.RpcLog), evs, resp, nil
+			}
+			return "", "", evs, resp, nil
+		}
+		key, what, evs, resp, err := judge(b.name)
+		if err != nil {
+			return err
+		}
+		if key != "" {
+			key2, _, _, _, err := judge(b.name + "-repro")
+			if err != nil {
+				return err
+			}
+			if key2 == "" {
+				return fmt.Errorf("burst %s: violation not reproduced in a second run (inconclusive): %s", b.name, what)
+			}
+			c.Violate(key, what, map[string]any{"burst": b.name, "env": b.env, "conns": b.conns, "calls": b.calls, "sizes": b.sizes, "cap": b.cap, "seed": seed})
+			continue
+		}
+		c.Add("traces_validated_against_impl", 1)
+		c.Add("trace_events_validated", len(evs))
+		c.Add("evaluations", resp.Calls)
+		peaks[b.name] = map[string]any{"requests": resp.Calls, "peak_running": resp.Peak, "cap": b.cap, "piled_up": resp.Piled,
+			"server_limit_bytes": resp.Limit, "server_max_workers": resp.MaxWorkers}
+		c.Logf("burst %s: %d requests, peak running %d (cap %d), piled=%v, server limit %d", b.name, resp.Calls, resp.Peak, b.cap, resp.Piled, resp.Limit)
+		if resp.Limit != int64(b.memSpec) {
+			return fmt.Errorf("burst %s: server reports request memory limit %d, the specification was instantiated with %d", b.name, resp.Limit, b.memSpec)
+		}
+		// no vacuity: the burst must really have piled up against the limit
+		if !resp.Piled || resp.Peak < b.cap {
+			return fmt.Errorf("vacuous: burst %s did not pile up (peak %d, expected cap %d, piled=%v)", b.name, resp.Peak, b.cap, resp.Piled)
+		}
+		if firstTrace == nil {
+			firstTrace, firstCfg = evs, b
+			for _, e := range evs {
+				if e.str("ev") == "enter" || e.str("ev") == "sample" {
+					c.Sample(e)
+					if len(evs) > 0 && e.str("ev") == "sample" {
+						break
+					}
+				}
+			}
+		}
+	}
+	c.Set("bursts", peaks)
+	c.Set("distinct_nontrivial", len(peaks))
+
+	// 3. binding self-test: one more handler than the limit allows must be rejected
+	if firstTrace != nil {
+		bad := corruptBurst(firstTrace, firstCfg.cap)
+		if bad == nil {
+			return fmt.Errorf("binding self-test impossible: no enter event right after an exit at the cap")
+		}
+		v, err := validateTraceBFS(c, "TraceRpcLimits", "TraceRpcLimits.cfg", firstCfg.consts(), toNDJSON(bad))
+		if err != nil {
+			return err
+		}
+		if v.OK {
+			return fmt.Errorf("binding self-test failed: a history with cap+1 concurrent handlers was accepted")
+		}
+		c.Set("selftest_overadmission_rejected", true)
+	}
+	c.Set("rule", "TLC checks WorkerBound / MemBound / WaitingNotDropped of RpcCalls for the (MaxWorkers, memory slots) pairs used; bursts of gated requests against real servers with MaxWorkers in {1,2,3,(0)} and with request memory made scarce through RequestBufSize are recorded (handler-side counter and Server.RequestsMemory samples under the recorder mutex) and validated by TLC against the projection TraceRpcLimits: Running <= MaxWorkers, sum of takes of running handlers <= limit, accounted memory within [held, limit], every request finally answered ok")
+	c.Assume("ServerWithRequestMemoryLimit clamps to >= 16 MiB - 1; scarcity is obtained with ServerWithRequestBufSize (every packet takes max(length, RequestBufSize))")
+	c.Assume("take of a request = max(len(user body) + 24, RequestBufSize): 8 bytes query id + 16 bytes packet overhead, no extras in these requests")
+	return nil
+}
+
+// validateTraceBFS: deterministic (no silent steps) trace specifications need no depth-first queue.
+func validateTraceBFS(c *core.Ctx, module, cfg string, consts map[string]string, trace []byte) (*traceVerdict, error) {
+	r, err := c.TLC(core.TLCOpts{Module: module, Cfg: cfg, Consts: consts, Files: map[string][]byte{"trace.ndjson": trace}, Workers: 1, Timeout: 5 * time.Minute})
+	if err != nil {
+		return nil, err
+	}
+	v := &traceVerdict{States: r.Distinct, Gen: r.Generated, Total: strings.Count(string(trace), "\n")}
+	if r.OK {
+		v.OK, v.Matched = true, v.Total
+		return v, nil
+	}
+	if m := reHW.FindStringSubmatch(r.Tail + "\n" + r.ErrorText); m != nil && r.ErrorKind == "postcondition" {
+		fmt.Sscan(m[1], &v.Matched)
+		return v, nil
+	}
+	if r.ErrorKind == "invariant" {
+		v.InvError = r.ErrorText
+		return v, nil
+	}
+	return nil, fmt.Errorf("TLC %s failed: kind=%s\n%s\n%s", module, r.ErrorKind, r.ErrorText, r.Tail)
+}
+
+// corruptBurst moves an `enter` that follows an `exit` (at the cap) in front of that exit.
+func corruptBurst(evs []event, cap int) []event {
+	for i := 1; i < len(evs); i++ {
+		if evs[i].str("ev") == "enter" && evs[i].num("running") == cap {
+			for j := i - 1; j >= 0; j-- {
+				if evs[j].str("ev") == "exit" {
+					bad := append([]event{}, evs[:j]...)
+					bad = append(bad, evs[i])
+					bad = append(bad, evs[j:i]...)
+					bad = append(bad, evs[i+1:]...)
+					return bad
+				}
+				if evs[j].str("ev") == "enter" {
+					break
+				}
+			}
+		}
+	}
+	return nil
+}
